@@ -74,6 +74,7 @@ class Engine:
         self.invariant_failures = []
         self.contexts = {}  # coverage: (context, act kind) -> count
         self.completed = []  # ids of bare futures completed by the environment
+        self.entered_hook = None  # optional callable(proc, from, to) run inside the ENTERED_STATE callback
         self.world.awaitable_errors = {}
 
     # -- construction ------------------------------------------------------------------------
@@ -100,8 +101,9 @@ class Engine:
         plumpy = self.plumpy
         proc._sim_label = label
         self.world.rec('attach', label, proc.state.value)
-        self.listener = make_listener(plumpy, self)
-        proc.add_process_listener(self.listener)
+        if self.opts.get('listener', True):
+            self.listener = make_listener(plumpy, self)
+            proc.add_process_listener(self.listener)
         proc.add_state_event_callback(plumpy.base.state_machine.StateEventHook.ENTERED_STATE, self._entered)
         for ident in range(self.opts.get('cleanups', 2)):
             self.cleanups_run[ident] = 0
@@ -120,6 +122,8 @@ class Engine:
         if to == 'waiting':
             self.waits_entered += 1
             self.resumes_in_wait = 0
+        if self.entered_hook is not None:
+            self.entered_hook(proc, frm, to)
 
     # -- loop hooks --------------------------------------------------------------------------
     def before_handle(self, loop):
